@@ -335,13 +335,16 @@ def c18(tier='quick', seed=0):
     role_sets = [c for k in range(len(roles) + 1) for c in itertools.combinations(roles, k)]
     values = ['role:a', 'role:b or role:c', [['role:a'], ['role:b', 'role:c']], '@', '!', "role:a and 'q\"x':%(k)s", 'not role:b',
               [['role:c']], 'role:a or rule:helper']
+    # a check string much longer than any line width an emitter might fold at (values are emitted on one line)
+    LONG = ' or '.join('(role:a and role:%s and not role:legacy)' % r for r in ('b', 'c', 'b', 'c'))
+    values.append(LONG + ' or role:c')
     for it in range(80 if tier == 'quick' else 800):
         with warnings.catch_warnings():
             warnings.simplefilter('ignore')
             dep = policy.DeprecatedRule('svc:old', 'role:legacy', deprecated_reason='r', deprecated_since='s')
             kind = rng.choice(['plain', 'renamed', 'split', 'changed', 'split_keep'])
             defaults = [policy.DocumentedRuleDefault('svc:plain', 'role:a', 'plain', [{'path': '/', 'method': 'GET'}]),
-                        policy.RuleDefault('helper', 'role:c')]
+                        policy.RuleDefault('helper', 'role:c'), policy.RuleDefault('svc:long', LONG)]
             if kind == 'renamed':
                 defaults.append(policy.RuleDefault('svc:new', 'role:b', deprecated_rule=dep))
             elif kind == 'split':
@@ -369,6 +372,8 @@ def c18(tier='quick', seed=0):
             file_map['svc:keep'] = rng.choice(values)
         if rng.random() < 0.4:
             file_map['unknown:x'] = rng.choice(values)
+        if rng.random() < 0.5:
+            file_map['svc:long'] = rng.choice([LONG, LONG, LONG.replace(' or ', ' OR '), 'role:a'])
         names = sorted(set(new_names) | {n for n in file_map if n != 'svc:old'})
         before = decisions(file_map, defaults, names, role_sets)
         # ---- policy upgrade
@@ -465,6 +470,18 @@ def c18(tier='quick', seed=0):
 
 
 # ------------------------------------------------------------------ C19
+def ref_flatten(d, prefix=''):
+    """the documented reading of a nested target file: every scalar, keyed by the dotted path to it"""
+    out = {}
+    for k, v in d.items():
+        key = prefix + '.' + k if prefix else k
+        if isinstance(v, dict):
+            out.update(ref_flatten(v, key))
+        else:
+            out[key] = v
+    return out
+
+
 def c19(tier='quick', seed=0):
     from oslo_policy import shell, policy
     rng = random.Random(seed)
@@ -495,7 +512,10 @@ def c19(tier='quick', seed=0):
             pol['svc:op%d' % i] = rand_expr(rng, rng.randint(0, 3), leaves)
         tok = rng.choice(tokens)
         is_admin = rng.random() < 0.5
-        target = rng.choice([None, {'project_id': 'p1', 'target': {'project': {'id': 'p1'}}}, {'project_id': 'zz', 'a': {'b': {'c': 1}}}])
+        target = rng.choice([None, {'project_id': 'p1', 'target': {'project': {'id': 'p1'}}}, {'project_id': 'zz', 'a': {'b': {'c': 1}}},
+                             {'target': {'project': {'id': 'p1'}}, 'project_id': 'p1', 'user_id': 'u1'},
+                             {'a': {'x': 1}, 'target': {'project': {'id': 'p1', 'domain': {'id': 'd1'}}, 'user': {'id': 'u1'}}, 'project_id': 'p1'},
+                             {'user_id': 'u1', 'a': {}, 'project_id': 'p1', 'target': {'project': {'id': 'zz'}}}])
         apply_rule = rng.choice([None, None, 'svc:op0', 'helper'])
         sb = Sandbox()
         try:
@@ -525,7 +545,7 @@ def c19(tier='quick', seed=0):
                     creds['system_scope'] = 'all'
                 creds['is_admin'] = is_admin
                 if target is not None:
-                    tgt = shell.flatten(json.loads(json.dumps(target)))
+                    tgt = ref_flatten(json.loads(json.dumps(target)))
                 else:
                     tgt = {'user_id': 'u1'}
                     if creds.get('project_id'):
